@@ -3,7 +3,18 @@
 import json
 import sys
 
+
+def second_round_text(pid):
+    kf = json.load(open('/verif/known_findings.json'))['findings']
+    known = [f for f in kf if f['property'] == pid]
+    lines = "\n".join("  - " + (f['key'].replace('-', ' ')) + (" (already repaired)" if f['status'] == 'fixed' else " (known, open)") for f in known)
+    return f"""
+This is a SECOND hunt for this property. Defects already reported for it (do not report these again, and avoid inputs that merely re-trigger them):
+{lines if lines else '  (none)'}
+Look where earlier hunts and ordinary random testing did not: SIZE (groups of more than 256 children, ten or more numbered features / constraints / attributes, nesting deeper than 256, integers beyond 2**53 or 2**64, floats with exponents, 0 / -0 / 1e16 boundaries), rare DATA (the NFC and NFD spelling of one name, non-ASCII decimal digits, blanks other than the ASCII space such as NBSP / U+2028 / U+3000, lone surrogates, names equal to structural words of the SAME document such as key names, section headers or type values, empty strings where allowed), documents a reader ACCEPTS although they are ill-formed (if the property speaks of 'whatever document a reader accepts', an accepted ill-formed document that yields a broken model is a violation), unusual but legal ORDERS of public calls on one object (a writer, reader or operation object used twice; a model edited through public setters between two calls; a subtree moved with Feature.relations / add_relation), and interactions BETWEEN formats (a model read by one reader and written by another writer, if the property covers that writer). Spend at least 60 distinct experiments before giving up."""
+
 pid = sys.argv[1]
+SECOND_ROUND = len(sys.argv) > 2 and sys.argv[2] == '2'
 p = next(json.loads(l) for l in open('/verif/properties.jsonl') if json.loads(l)['id'] == pid)
 wt = f"/tmp/wt_{pid}"
 print(f"""You are testing a Python library for violations of one stated property. The library is flamapy's feature-model metamodel plugin (package `flamapy.metamodels.fm_metamodel`). You have your own scratch git worktree of it at `{wt}` (a detached checkout; work ONLY inside that directory; never touch /repo or /verif, and do not read anything under /verif). Run its code with `cd {wt} && PYTHONPATH={wt} /venv/bin/python ...` (the PYTHONPATH makes the worktree's copy win over the installed one; verify with `python -c "import flamapy.metamodels.fm_metamodel as m; print(m.__file__)"`). There is no network. Do NOT modify the library.
@@ -19,4 +30,5 @@ Your task: try hard to REFUTE the claim — find concrete inputs (models built t
 
 A finding only counts if (a) the input is inside the property's quantification (say why), (b) the expected behaviour follows from the property's statement (say which clause), and (c) you have a small stand-alone script that demonstrates it on the unmodified worktree. Defects located in other packages (flamapy.core, the ANTLR grammars, the Python standard library) count only if they surface through this library's behaviour described by the property; say where the root cause is.
 
-Deliverables — write them into `{wt}/findings/` (create it): for each finding k = 1, 2, ...: `f<k>_demo.py` (exits 1 and prints FAIL plus what was expected / observed when the violation shows; it must run with the command above) and `f<k>.json` = {{"property": "{pid}", "clause": "...", "input": "...", "expected": "...", "observed": "...", "root_cause": "file:function and one sentence", "inside_quantification_because": "..."}}. If after a thorough search (at least 40 distinct experiments covering the categories above) you find nothing, write `findings/none.json` = {{"property": "{pid}", "experiments": ["one line per experiment family you ran and what it showed"]}}. Finish with a short report: one line per finding (or the list of experiment families if none).""")
+Deliverables — write them into `{wt}/findings/` (create it): for each finding k = 1, 2, ...: `f<k>_demo.py` (exits 1 and prints FAIL plus what was expected / observed when the violation shows; it must run with the command above) and `f<k>.json` = {{"property": "{pid}", "clause": "...", "input": "...", "expected": "...", "observed": "...", "root_cause": "file:function and one sentence", "inside_quantification_because": "..."}}. If after a thorough search (at least 40 distinct experiments covering the categories above) you find nothing, write `findings/none.json` = {{"property": "{pid}", "experiments": ["one line per experiment family you ran and what it showed"]}}. Finish with a short report: one line per finding (or the list of experiment families if none).
+{second_round_text(pid) if SECOND_ROUND else ''}""")
